@@ -311,9 +311,10 @@ UNITS['U14v'] = dict(
 
 UNITS['U21k'] = dict(
     kind='kani', crate='kani/U21', timeout_s=900, mem_gb=20, jobs=2,
-    title='BOUNDED (literals <= 4 chars): parser.rs get_limit / get_offset numeric-literal conversion (expression slices)',
+    title='parser.rs: get_limit / get_offset numeric-literal conversion (expression slices; BOUNDED: literals <= 4 chars) and the statement-list handling of parse_query (slice; complete: 0, 1, 2 statements)',
     harnesses=[dict(name='proofs::limit_never_panics', bounded='literal <= 4 chars over 0-9 . e -, unwind 6', unwind=6, extra=['-Z', 'stubbing'], clause='Ok iff unsigned integer literal; otherwise an error value; no panic', fn='parser::get_limit[slice]'),
                dict(name='proofs::offset_never_panics', bounded='literal <= 4 chars over 0-9 . e -, unwind 6', unwind=6, extra=['-Z', 'stubbing'], clause='Ok iff unsigned integer literal; otherwise an error value; no panic', fn='parser::get_offset[slice]'),
+               dict(name='proofs::statement_count_never_panics', unwind=4, extra=['-Z', 'stubbing'], clause='Ok iff the text parsed to exactly one statement and it is a query; zero / several / other statements give an error value; no panic', fn='parser::parse_query[slice: statement list]'),
                dict(name='proofs::vx_canary', expect_fail=True)],
     assumptions=['slice: only the conversion arm; the sqlparser AST match around it is dropped', 'literals longer than 4 characters (e.g. beyond u64) are not generated: parse::<u64> overflow path covered only by reading'],
     not_covered=['sqlparser', 'convert_to_native_expr', 'get_raw_val'])
@@ -435,6 +436,15 @@ UNITS['U34n'] = dict(
                  'reference semantics like_matches(): % any sequence, _ one character, other characters themselves (patterns with adjacent % or backslashes are LocustDB-specific escapes and are left out)'],
     not_covered=['patterns longer than the bound, other characters', 'the escape conventions (\\_ and %%)', 'the RegexMatch operator itself'])
 
+UNITS['U35k'] = dict(
+    kind='kani', crate='kani/U35', timeout_s=900, mem_gb=10, jobs=7,
+    title='BOUNDED (seven fixed shapes: LIMIT n <= 2, one batch of <= 4 rows, keys any value in -128..=127): top_n.rs TopN::execute body (slice) with real heap_replace and i64 comparators - keeps the n best rows, LIMIT 0 keeps none',
+    harnesses=[dict(name='proofs::%s' % h, bounded='fixed shape %s, unwind 7' % h, unwind=7, clause='min(n, rows) rows kept; each kept key is the key of its recorded row; rows distinct; no dropped row sorts strictly before a kept row; never a panic', fn='TopN::execute[slice] + heap_replace')
+               for h in ('limit0_two_rows_asc', 'limit0_one_row_desc', 'limit1_three_rows_asc', 'limit2_two_rows_asc', 'limit2_one_row_asc', 'limit2_four_rows_asc', 'limit2_three_rows_desc')]
+    + [dict(name='proofs::vx_canary', expect_fail=True)],
+    assumptions=['Vec::with_capacity(n).capacity() == n (TopN::init and execute rely on it; std only promises >= n)', 'R6: scratchpad bindings become parameters of the same guard types (Ref<[T]>, RefMut<Vec<_>>); self.n / self.last_index in a two-field stand-in'],
+    not_covered=['several batches (streaming)', 'TopN::finalize (final sort of the kept rows)', 'n > 2', 'the planner choice between top-n and full sort'])
+
 UNITS['U24k'] = dict(
     kind='kani', crate='kani/U24', timeout_s=600, mem_gb=12, jobs=2,
     title='BOUNDED (names <= 2 ASCII characters): storage.rs sanitize_table_name - cleaning steps after lower-casing (slice) and the verbatim-or-digest decision (expression slice)',
@@ -491,7 +501,7 @@ PROPS = {
                 level_note='grouping-key construction, hash-map grouping and the final pass are not covered',
                 technique='contract-based deductive verification (Verus + Kani complete harnesses) of extracted functions',
                 assumptions=[], not_covered=['hashmap_grouping*', 'try_bitpacking (float log2)']),
-    'C05': dict(level='proof', units=['U10', 'U11', 'U12k', 'U13k', 'U26', 'U29', 'U33'],
+    'C05': dict(level='proof', units=['U10', 'U11', 'U12k', 'U13k', 'U26', 'U29', 'U33', 'U35k'],
                 level_text='Verus proof of merge (sorted, stable, limit) and of the sort kernels against assumed contracts of the std sorts (stable where stability is asked for, NULLs last / first when descending), complete Kani proofs of integer/float comparators and LIMIT/OFFSET window arithmetic; string comparators bounded',
                 level_note='the std sorts themselves are assumed (A-std-sort); the top-n driver and the planner choice between sort and top-n (and which sorts it requests as stable) are not covered',
                 technique='contract-based deductive verification (Verus + Kani) of extracted functions',
